@@ -31,7 +31,11 @@ pub fn eval(sc: &Scenario) -> CaseResult {
     // did the survivors hold different amounts of the victim's input when it died?
     let pre = {
         let lasts: Vec<i32> = (0..sc.peers.len()).filter(|p| *p != victim).map(|s| out.net.ledgers.get(&(peer_addr(victim), peer_addr(s))).map(|l| l.input_delivered_max).unwrap_or(-1)).collect();
-        if lasts.iter().any(|l| *l != lasts[0]) { "amounts_differ" } else { "amounts_equal" }
+        // the ledger only bounds what a survivor holds from above (a delivered packet can still be
+        // undecodable); the survivors' own cut-offs are the second witness
+        let vh0 = (0..out.owners.len()).find(|h| out.owners[*h] == victim);
+        let cuts: Vec<i32> = (0..sc.peers.len()).filter(|p| *p != victim).filter_map(|s| vh0.and_then(|h| out.peers[s].cs.get(h).map(|c| c.1))).collect();
+        if lasts.iter().any(|l| *l != lasts[0]) || cuts.iter().any(|c| *c != cuts[0]) { "amounts_differ" } else { "amounts_equal" }
     };
     if let Some((sig, msg)) = first_violation(&out, &["C10", "C02", "C04"]) {
         let kind = if sig.starts_with("panic|") { sig } else { sig };
